@@ -387,6 +387,11 @@ func (m *Encoder) encodeStruct(v reflect.Value) error {
 	if t == decimalType {
 		return m.encodeDecimal(v)
 	}
+	if t == bigIntType {
+		// A big.Int is an Ion int (Unmarshal already decodes ints into it), not a struct.
+		i := v.Interface().(big.Int)
+		return m.w.WriteBigInt(&i)
+	}
 
 	if err := m.w.BeginStruct(); err != nil {
 		return err
